@@ -1963,13 +1963,14 @@ func (s *Netceptor) runProtocol(ctx context.Context, sess BackendSession, bi *Ba
 		return fmt.Errorf("connection cost must be positive")
 	}
 	established := false
+	registered := false // the peer has been entered into s.connections (and possibly the routing picture)
 	remoteEstablished := false
 	remoteNodeID := ""
 	connectionCost := bi.connectionCost
 	defer func() {
 		verifhook.Emit(s.vn, "sess_end", "sess", fmt.Sprintf("%p", sess), "est", established, "peer", remoteNodeID)
 		_ = sess.Close()
-		if established {
+		if established || registered {
 			select {
 			case s.sendRouteFloodChan <- 0:
 			case <-ctx.Done(): // ctx is a child of s.context
@@ -2136,6 +2137,7 @@ func (s *Netceptor) runProtocol(ctx context.Context, sess BackendSession, bi *Ba
 						return s.sendAndLogConnectionRejection(remoteNodeID, ci, "it connected using a node ID we are already connected to")
 					}
 					s.connections[remoteNodeID] = ci
+					registered = true
 					verifhook.Emit(s.vn, "conn_add", "sess", ci.vsess, "peer", remoteNodeID, "cost", connectionCost)
 					s.connLock.Unlock()
 
